@@ -65,7 +65,7 @@ func recsString(rs []outRec) string {
 	return "[" + strings.Join(parts, "\n  ") + "]"
 }
 
-func (r outRec) flagged() bool { _, ok := r.Ann["obimultiplex_error"]; return ok }
+func (r outRec) flagged() bool  { _, ok := r.Ann["obimultiplex_error"]; return ok }
 func (r outRec) assigned() bool { _, ok := r.Ann["sample"]; return ok }
 
 // markerOf finds the marker a record names through its primer attributes.
